@@ -1,6 +1,7 @@
 package jschema
 
 import (
+	"encoding/json"
 	"fmt"
 
 	schema "github.com/jsightapi/jsight-schema-core"
@@ -73,7 +74,18 @@ func FromRSchema(s *regex.RSchema) (*JSchema, error) {
 		return nil, errs.ErrRegexExample.F(err)
 	}
 
-	ss := New(s.File.Name(), fmt.Sprintf("%q // {regex: %q}", example, pattern))
+	// JSON quoting, not Go quoting: %q renders control characters as \a, \v or
+	// \x07, which are not JSON escapes and make the generated schema unloadable.
+	exampleJSON, err := json.Marshal(string(example))
+	if err != nil {
+		return nil, errs.ErrRegexExample.F(err)
+	}
+	patternJSON, err := json.Marshal(pattern)
+	if err != nil {
+		return nil, errs.ErrRegexExample.F(err)
+	}
+
+	ss := New(s.File.Name(), fmt.Sprintf("%s // {regex: %s}", exampleJSON, patternJSON))
 	if err = ss.load(); err != nil {
 		return nil, errs.ErrLoadError.F(err)
 	}
